@@ -23,6 +23,7 @@ use crate::wpool::{log_uniform, withdraw_op};
 pub struct C02 {
     rng: StdRng,
     locked: BTreeMap<String, u128>,
+    drain_n: u64,
 }
 
 impl C02 {
@@ -30,6 +31,7 @@ impl C02 {
         C02 {
             rng: StdRng::seed_from_u64(seed ^ 0xC02),
             locked: BTreeMap::new(),
+            drain_n: 0,
         }
     }
 }
@@ -127,6 +129,155 @@ impl C02 {
 
 impl Monitor for C02 {
     fn step(&mut self, w: &mut World, s: &Step, rep: &mut Reporter) {
+        self.judge(w, s, rep);
+        // ---- clause 5: any amount worth at least one unit can be redeemed (forked)
+        if s.idx % 3 == 0 {
+            self.redeemable(w, s, rep);
+        }
+        // ---- forked: every provider leaves, somebody re-seeds the pool
+        if s.idx % 40 == 17 {
+            self.drain_and_reseed(w, s, rep);
+        }
+    }
+}
+
+impl C02 {
+    /// one message executed in a fork and judged like any other
+    fn forked(&mut self, w: &mut World, op: &Op, idx: usize, rep: &mut Reporter) -> bool {
+        let pre = crate::ops::observe(w);
+        let fpre = crate::wfarm::fobserve(w);
+        let pre_snap = w.snapshot();
+        let out = w.apply(op);
+        let post = crate::ops::observe(w);
+        let fpost = crate::wfarm::fobserve(w);
+        let st = Step { idx, op, pre_snap: &pre_snap, pre: &pre, out: &out, post: &post, fpre: &fpre, fpost: &fpost };
+        self.judge(w, &st, rep);
+        out.is_ok()
+    }
+
+    /// forked: every holder withdraws everything (only the locked minimum - and whatever is
+    /// locked in the farm manager - remains, backed by dust reserves that carry all the fees the
+    /// pool ever earned), then somebody deposits again, and leaves again
+    fn drain_and_reseed(&mut self, w: &mut World, s: &Step, rep: &mut Reporter) {
+        use crate::wpool::{create_pool_op, pool_fee, provide_op, swap_op};
+        use cosmwasm_std::Decimal;
+        use mantra_dex_std::pool_manager::PoolType;
+        let snap = w.snapshot();
+        let saved_locked = self.locked.clone();
+        self.drain_n += 1;
+        let holders: Vec<Addr> = w.users.iter().chain([&w.owner, &w.hostile]).cloned().collect();
+        // every other time the pool is a fresh one with high fees (so that the value per LP
+        // token grows visibly) created in the fork: same decimals, mixed decimals, both types
+        let fresh = self.drain_n % 2 == 0;
+        let id: String = if fresh {
+            let sets: [&[&str]; 6] = [&["uusdc", "uusdt"], &["uom", "uusdc", "uusdt"], &["udai", "ueth"], &["uusdc", "udai"], &["uusdc", "uusdt", "uwbtc", "udai"], &["uom", "ueth"]];
+            let k = (self.drain_n / 2) as usize % sets.len();
+            let ty = if k == 5 || self.rng.gen_range(0..5) == 0 && sets[k].len() == 2 { PoolType::ConstantProduct } else { PoolType::StableSwap { amp: *[10u64, 85, 100, 2000].choose(&mut self.rng).unwrap() } };
+            let fees = pool_fee(self.rng.gen_range(0..50), self.rng.gen_range(100..1500), 0, &[]);
+            let name = format!("dr{}", self.drain_n);
+            let creator = holders[0].clone();
+            let mut idx = s.idx;
+            if !self.forked(w, &create_pool_op(w, &creator, sets[k], ty, fees, Some(&name)), idx, rep) {
+                self.locked = saved_locked;
+                w.restore(&snap);
+                return;
+            }
+            let pid = format!("o.{name}");
+            // two providers
+            for h in holders.iter().take(2) {
+                let funds: Vec<cosmwasm_std::Coin> = sets[k]
+                    .iter()
+                    .map(|d| {
+                        let dec = w.cfg.denoms.iter().find(|(x, _)| x == d).map(|(_, c)| *c).unwrap_or(6);
+                        coin(10u128.pow(dec as u32) * self.rng.gen_range(1_000..2_000_000u128), d.to_string())
+                    })
+                    .collect();
+                idx += 1;
+                self.forked(w, &provide_op(h, &pid, funds, None, None, None, None, None), idx, rep);
+            }
+            pid
+        } else {
+            let mut cands: Vec<&PoolView> = s.post.pools.values().filter(|p| p.supply > 0 && p.info.status.withdrawals_enabled && p.info.status.deposits_enabled).collect();
+            if cands.is_empty() {
+                return;
+            }
+            // prefer pools none of whose LP is locked in the farm manager: their supply falls
+            // to exactly the locked minimum
+            cands.sort_by_key(|p| (s.post.bal(&w.fm, &p.info.lp_denom) > 0, p.info.pool_identifier.clone()));
+            let free = cands.iter().filter(|p| s.post.bal(&w.fm, &p.info.lp_denom) == 0).count();
+            let p = if free > 0 && self.rng.gen_range(0..4) != 0 { cands[self.rng.gen_range(0..free)] } else { cands[self.rng.gen_range(0..cands.len())] };
+            p.info.pool_identifier.clone()
+        };
+        let view = crate::ops::observe(w);
+        let p = match view.pools.get(&id) {
+            Some(p) if p.supply > 0 => p.clone(),
+            _ => {
+                self.locked = saved_locked;
+                w.restore(&snap);
+                return;
+            }
+        };
+        // churn: large swaps back and forth leave their swap fees in the pool
+        if p.info.status.swaps_enabled {
+            let trader = holders[2].clone();
+            let n = p.info.asset_denoms.len();
+            for r in 0..self.rng.gen_range(2..10usize) {
+                let cur = crate::ops::observe(w);
+                let q = match cur.pools.get(&id) {
+                    Some(q) => q,
+                    None => break,
+                };
+                let i = r % n;
+                let j = (r + 1) % n;
+                let res = q.info.assets.iter().find(|c| c.denom == q.info.asset_denoms[i]).map(|c| c.amount.u128()).unwrap_or(0);
+                let amt = res / self.rng.gen_range(3..20u128);
+                if amt == 0 {
+                    continue;
+                }
+                let op = swap_op(&trader, &id, coin(amt, q.info.asset_denoms[i].clone()), &q.info.asset_denoms[j], None, Some(Decimal::percent(50)), None);
+                let _ = w.apply(&op);
+            }
+        }
+        for h in &holders {
+            let b = w.balance(h, &p.info.lp_denom);
+            if b > 0 {
+                self.forked(w, &withdraw_op(h, &id, coin(b, p.info.lp_denom.clone())), s.idx, rep);
+            }
+        }
+        let left = w.supply(&p.info.lp_denom);
+        rep.count("ss_mint_bound", if left == self.locked.get(&id).copied().unwrap_or(0) { "drained_to_exactly_the_locked_minimum" } else { "drained_with_farm_locked_lp_left" });
+        // re-seed: amounts of the order of one thousandth .. a million whole tokens
+        let who = holders[self.rng.gen_range(0..holders.len())].clone();
+        let whole = self.rng.gen_range(0..3);
+        let funds: Vec<cosmwasm_std::Coin> = p
+            .info
+            .asset_denoms
+            .iter()
+            .zip(p.info.asset_decimals.iter())
+            .map(|(d, dec)| {
+                let unit = 10u128.pow(*dec as u32);
+                let amt = match whole {
+                    0 => unit * self.rng.gen_range(1..1000u128),
+                    1 => log_uniform(&mut self.rng, unit / 1000 + 1, unit * 1_000_000),
+                    _ => unit * 1_000 + self.rng.gen_range(0..unit),
+                };
+                coin(amt, d.clone())
+            })
+            .collect();
+        let ok = self.forked(w, &provide_op(&who, &id, funds, None, None, None, None, None), s.idx, rep);
+        if ok {
+            rep.count("ss_mint_bound", if fresh { "deposits_into_a_drained_fresh_high_fee_pool" } else { "deposits_into_a_drained_pool" });
+            let b = w.balance(&who, &p.info.lp_denom);
+            if b > 0 {
+                self.forked(w, &withdraw_op(&who, &id, coin(b, p.info.lp_denom.clone())), s.idx, rep);
+            }
+        }
+        self.locked = saved_locked;
+        w.restore(&snap);
+    }
+
+    /// clauses 1-4 and 6 on one executed message
+    fn judge(&mut self, w: &mut World, s: &Step, rep: &mut Reporter) {
         // ---- clause 1: who creates and destroys LP
         let evs = if s.out.is_ok() { parse_events(s.out, &w.pm).unwrap_or_default() } else { vec![] };
         let mut minted_by_pool: BTreeMap<String, u128> = BTreeMap::new();
@@ -304,10 +455,6 @@ impl Monitor for C02 {
             }
         }
 
-        // ---- clause 5: any amount worth at least one unit can be redeemed (forked)
-        if s.idx % 3 == 0 {
-            self.redeemable(w, s, rep);
-        }
         let _ = (Signed::is_negative(&BigInt::zero()),);
     }
 }
